@@ -10,6 +10,6 @@ CONSTANTS
   Flags = {}
   MaxDeliveries = 7
   HeadersFirst = FALSE
-  SimProfile = "plain"
+  SimProfile = "deep"
   TxShapes = "none"
 INVARIANTS Emit
